@@ -11,13 +11,13 @@ from . import defs, impl, refimpl
 from .structprops import union_anon_nested, has_eof, small_unit_bits, union_dump_incomplete
 
 
-def with_nested(rnd, g: defs.Gen, tree, kind="struct"):
+def with_nested(rnd, g: defs.Gen, tree, kind="struct", dyn_p=0.2):
     """the tree with one more named nested structure / union (or a small array of it) inserted at a random position, so that
     every tree of this probe family has something to hoist; the child comes from the same generator"""
     if kind == "union":
         child = ("union", g.fields(max(0, g.max_depth - 1), dyn=False, top=False, in_union=True))
     else:
-        child = ("struct", g.fields(max(0, g.max_depth - 1), dyn=rnd.random() < 0.2, top=False))
+        child = ("struct", g.fields(max(0, g.max_depth - 1), dyn=rnd.random() < dyn_p, top=False))
     ty = child
     if rnd.random() < 0.5:
         ty = ("arr", child, ("fixed", rnd.choice([1, 2, 2, 3])))
@@ -28,6 +28,32 @@ def with_nested(rnd, g: defs.Gen, tree, kind="struct"):
     # not between two bit-fields of one run: that would only split the run, which is legal as well, so no restriction
     fields.insert(pos, {"name": g.name(), "ty": ty, "bits": None})
     return (tree[0], fields)
+
+
+def directed_dynamic(rnd, g: defs.Gen):
+    """a packed outer structure with 1-3 small leading members (so that what follows sits at an odd / misaligned offset), a named
+    nested structure holding a count, an array sized by it (or a null-terminated one) and then members of mixed alignments, and
+    a trailing member: the shape in which dynamically placed members of an aligned structure are padded by stream position.
+    -> (plan, tree2) with the nested structure loaded with align=True and the outer one packed"""
+    S = lambda n: ("sc", n)  # noqa: E731
+    cnt = g.name()
+    elem = rnd.choice(["char", "uint8", "uint16", "int24", "uint32"])
+    arr = ("arr", S(elem), ("expr", f"{cnt} & 3") if rnd.random() < 0.7 else ("null",))
+    child = [{"name": cnt, "ty": S("uint8"), "bits": None}, {"name": g.name(), "ty": arr, "bits": None}]
+    for _ in range(rnd.randint(1, 3)):
+        child.append({"name": g.name(), "ty": S(rnd.choice(["uint8", "uint16", "uint32", "uint64", "int24", "char", "uint16", "uint32"])), "bits": None})
+    ty = ("struct", child)
+    if rnd.random() < 0.3:
+        ty = ("arr", ty, ("fixed", 2))
+    outer = [{"name": g.name(), "ty": S(rnd.choice(["uint8", "char", "int24", "uint8", "uint16"])), "bits": None} for _ in range(rnd.randint(1, 3))]
+    outer.append({"name": g.name(), "ty": ty, "bits": None})
+    outer.append({"name": g.name(), "ty": S(rnd.choice(["uint8", "uint16", "uint32"])), "bits": None})
+    tree = ("struct", outer)
+    for _ in range(16):
+        plan, tree2 = defs.hoist(tree, rnd, p=1.0, top_align=False, mixed=True)
+        if is_mixed(plan) and len(plan) == 2 and plan[0][2] and not plan[1][2]:
+            return plan, tree2
+    return defs.hoist(tree, rnd, p=1.0, top_align=False, mixed=True)
 
 
 def load_plan(sess: impl.Session, plan, *, compiled):
